@@ -17,18 +17,19 @@ pub struct StepCase {
     /// Some(v): the action is "request interrupt v, then poll" (the acceptance of an interrupt at an
     /// instruction boundary) instead of executing the instruction at pc
     pub irq: Option<u8>,
-    /// Some: before the case is set up, this *failing* step is executed on the same emulator (its result is
-    /// ignored, its memory effects are undone). An instruction that fails must leave nothing behind that
-    /// changes what the next instruction does.
+    /// Some: before the case is set up, this step is executed on the same emulator (its result is ignored, its
+    /// memory effects are undone): a step that *fails* (an instruction that fails must leave nothing behind that
+    /// changes what the next instruction does) or a *sibling* of the case's instruction (same registers, the
+    /// related encoding - e.g. the same displacement number in the other width - must not be confused with it).
     pub primer: Option<Primer>,
 }
 
-/// a step that ends in an error: `code` at `pc`, every register = `reg`
+/// a step executed before the case on the same emulator: `code` at `pc` with the register file `er`
 #[derive(Clone, Debug, PartialEq)]
 pub struct Primer {
     pub pc: u32,
     pub code: Vec<u8>,
-    pub reg: u32,
+    pub er: [u32; 8],
 }
 
 impl StepCase {
@@ -41,7 +42,7 @@ impl StepCase {
             "patches": self.patches.iter().map(|(a, b)| json!([a, hex(b)])).collect::<Vec<_>>(),
             "bus": [self.bus.abwcr, self.bus.astcr, self.bus.wcrh, self.bus.wcrl, self.bus.drcra],
             "irq": self.irq,
-            "primer": self.primer.as_ref().map(|p| json!({"pc": p.pc, "code": hex(&p.code), "reg": p.reg})),
+            "primer": self.primer.as_ref().map(|p| json!({"pc": p.pc, "code": hex(&p.code), "er": p.er.to_vec()})),
         })
     }
     pub fn from_json(v: &Value) -> Option<StepCase> {
@@ -65,7 +66,13 @@ impl StepCase {
                 .collect(),
             bus: BusCfg { abwcr: g(0), astcr: g(1), wcrh: g(2), wcrl: g(3), drcra: g(4) },
             irq: v.get("irq").and_then(|x| x.as_u64()).map(|x| x as u8),
-            primer: v.get("primer").filter(|p| p.is_object()).and_then(|p| Some(Primer { pc: p.get("pc")?.as_u64()? as u32, code: unhex(p.get("code")?.as_str()?)?, reg: p.get("reg")?.as_u64()? as u32 })),
+            primer: v.get("primer").filter(|p| p.is_object()).and_then(|p| {
+                let mut er = [0u32; 8];
+                for (i, x) in p.get("er")?.as_array()?.iter().enumerate().take(8) {
+                    er[i] = x.as_u64()? as u32;
+                }
+                Some(Primer { pc: p.get("pc")?.as_u64()? as u32, code: unhex(p.get("code")?.as_str()?)?, er })
+            }),
         })
     }
     /// human-readable one-line rendering for evidence samples
@@ -73,7 +80,7 @@ impl StepCase {
         format!(
             "{}{}code={} @{:06x} er=[{}] ccr={:02x}{}",
             match &self.primer {
-                Some(p) => format!("after-failing-step[{} @{:06x} regs={:08x}] ", hex(&p.code), p.pc, p.reg),
+                Some(p) => format!("after-step[{} @{:06x} er=[{}]] ", hex(&p.code), p.pc, p.er.iter().map(|r| format!("{:08x}", r)).collect::<Vec<_>>().join(",")),
                 None => String::new(),
             },
             match self.irq {
@@ -336,7 +343,7 @@ pub fn run_primer(emu: &mut Emu, p: &Primer, case: &StepCase) {
         emu.set_byte(p.pc.wrapping_add(i as u32), *b);
     }
     emu.set_bus_cfg(&case.bus);
-    emu.cpu.er = [p.reg; 8];
+    emu.cpu.er = p.er;
     emu.set_ccr(case.ccr);
     emu.set_pc(p.pc);
     emu.clear_write_log();
